@@ -58,6 +58,7 @@ type Sched struct {
 	Deadlock bool
 	Overrun  bool
 	pick     func(runnable []int, last int) int
+	spawn    func(body func())
 }
 
 // the worker currently holding the baton, and the active scheduler.
@@ -212,6 +213,42 @@ func (w *Worker) body(s *Sched) {
 	rawWrite(s.swfd, stDone)
 }
 
+// Spawn turns fn into a new worker of the active scheduler (called from a
+// worker: simulated `go` statement). Without a scheduler it is a plain `go`.
+//
+//go:norace
+func Spawn(site string, fn func()) {
+	s := active
+	if s == nil || cur == nil {
+		go fn()
+		return
+	}
+	w := &Worker{ID: len(s.Workers), Fn: fn}
+	w.rfd, w.wfd = mkpipe()
+	s.Workers = append(s.Workers, w)
+	s.spawn(func() { w.body(s) })
+	handoff(stYield, site) // creation is a switch point: the child may run first
+}
+
+// WorkerState describes a worker after Run returned (for leak/deadlock reports).
+type WorkerState struct {
+	ID      int
+	Done    bool
+	Blocked bool
+	Site    string
+}
+
+//go:norace
+func (s *Sched) States() []WorkerState {
+	var out []WorkerState
+	for _, w := range s.Workers {
+		out = append(out, WorkerState{w.ID, w.done, w.blocked, w.site})
+	}
+	return out
+}
+
+// StopWhenDone makes Run return as soon as worker `id` is done AND every other
+// worker is done or blocked (nothing else can happen without it).
 // scheduler side ------------------------------------------------------------
 
 // Run starts every worker and schedules them until all are done, a deadlock
@@ -223,6 +260,7 @@ func (w *Worker) body(s *Sched) {
 //go:norace
 func (s *Sched) Run(spawn func(body func())) {
 	active = s
+	s.spawn = spawn
 	for _, w := range s.Workers {
 		w := w
 		spawn(func() { w.body(s) })
